@@ -522,7 +522,39 @@ def translate_mac_guards():
                  "read_mac_guards_are_the_mode_tests": ([], [])}
 
 
+def translate_mac_input():
+    """what is MACed: `compute_hmac` is ONE HMAC call over the whole `message` argument, and its three call sites pass
+    `seqno ‖ (packet | out)` resp. `seqno ‖ packet_size ‖ packet` — the complete packet, not a slice of it"""
+    import paramiko.packet as pkmod
+    from paramiko.packet import Packetizer
+
+    fn = _fn_ast(pkmod.compute_hmac)
+    body = [st for st in fn.body if not (isinstance(st, ast.Expr) and isinstance(st.value, ast.Constant))]
+    one_shot = ([a.arg for a in fn.args.args] == ["key", "message", "digest_class"] and len(body) == 1
+                and isinstance(body[0], ast.Return)
+                and ast.unparse(body[0].value) == "HMAC(key, message, digest_class).digest()")
+    send = _fn_ast(Packetizer.send_message)
+    read = _fn_ast(Packetizer.read_message)
+    sa = dict((n, ast.unparse(v)) for n, v in _assigns(send) if n in ("packed", "payload"))
+    send_ok = (sa.get("packed") == "struct.pack('>I', self.__sequence_number_out)"
+               and sa.get("payload") == "packed + (out if self.__etm_out else packet)")
+    send_calls = [ast.unparse(c) for c in ast.walk(send) if isinstance(c, ast.Call) and ast.unparse(c.func) == "compute_hmac"]
+    send_ok = send_ok and send_calls == ["compute_hmac(self.__mac_key_out, payload, self.__mac_engine_out)"]
+    ra = [ast.unparse(v) for n, v in _assigns(read) if n == "mac_payload"]
+    read_ok = ra == ["struct.pack('>II', self.__sequence_number_in, packet_size) + packet"] * 2
+    read_calls = [ast.unparse(c) for c in ast.walk(read) if isinstance(c, ast.Call) and ast.unparse(c.func) == "compute_hmac"]
+    read_ok = read_ok and read_calls == ["compute_hmac(self.__mac_key_in, mac_payload, self.__mac_engine_in)"] * 2
+    src = ("def compute_hmac_one_shot_over_whole_message : Bool :=\n  %s\n\n"
+           "def send_mac_input_is_seq_and_whole_packet : Bool :=\n  %s\n\n"
+           "def read_mac_input_is_seq_len_and_whole_packet : Bool :=\n  %s\n" % (_b(one_shot), _b(send_ok), _b(read_ok)))
+    return src, {"compute_hmac_one_shot_over_whole_message": ([], []), "send_mac_input_is_seq_and_whole_packet": ([], []),
+                 "read_mac_input_is_seq_len_and_whole_packet": ([], [])}
+
+
 EXPECTED_SIG = {
+    "compute_hmac_one_shot_over_whole_message": ([], []),
+    "send_mac_input_is_seq_and_whole_packet": ([], []),
+    "read_mac_input_is_seq_len_and_whole_packet": ([], []),
     "send_lock_acquire_unconditional": ([], []),
     "send_lock_released_in_finally": ([], []),
     "send_shared_state_outside_lock": ([], []),
@@ -560,12 +592,14 @@ def gen_lean(ctx=None):
     k4, s4 = translate_rekey_constants()
     k5, s5 = translate_send_lock()
     k6, s6 = translate_mac_guards()
+    k7, s7 = translate_mac_input()
     sig = dict(s1)
     sig.update(s2)
     sig.update(s3)
     sig.update(s4)
     sig.update(s5)
     sig.update(s6)
+    sig.update(s7)
     if sig != EXPECTED_SIG:
         raise Untranslatable("kernel inputs changed: %r" % sig)
     lines = [
@@ -602,6 +636,7 @@ def gen_lean(ctx=None):
     lines.append(k4)
     lines.append(k5)
     lines.append(k6)
+    lines.append(k7)
     lines.append("end PV.Generated.C03")
     return "\n".join(lines) + "\n"
 
@@ -651,7 +686,7 @@ class ToyHash:
 def toy_mac(key, msg):
     """reference: HMAC (RFC 2104) over the toy hash — equals hmac.HMAC(key, msg, ToyHash).digest() and Lean's toyMac"""
     k0 = toy_hash_k(b"", key) if len(key) > 16 else key
-    k = k0 + bytes(16 - len(k0))
+    k = k0 + bytes(max(0, 16 - len(k0)))
     return toy_hash_k(b"", bytes(x ^ 0x5C for x in k) + toy_hash_k(b"", bytes(x ^ 0x36 for x in k) + msg))
 
 
